@@ -42,6 +42,8 @@ def variants(sc, b):
         out.append(('enotconn', dict(copy.deepcopy(sc), shutdown_raises=True)))
         if sessprop.sampled(sc, b, 8):
             out.append(('shutdown-boom', dict(copy.deepcopy(sc), shutdown_raises='boom')))
+        elif sessprop.sampled(sc, b, 7):
+            out.append(('shutdown-reset', dict(copy.deepcopy(sc), shutdown_raises='reset')))
     if 'error' in conn.get('writes', []):
         sc2 = copy.deepcopy(sc)
         sc2['conns'][0]['writes'] = ['boom' if x == 'error' else x for x in conn['writes']]
